@@ -651,6 +651,11 @@ def main(argv: list[str]) -> int:
     if tier == "quick":
         rcases = rcases[::8]
     cwork += [(c, W.CONFIGS[i % 4], "reload" if tier == "quick" else "reload-deep") for i, c in enumerate(rcases)]
+    # the field-rich program (every CacheMeta / CacheMetaEx field non-default somewhere), all four configurations
+    for cfg in W.CONFIGS:
+        fc = dict(C.FIELD_CASE, file="<field world>")
+        cwork.append((fc, cfg, "reload-deep"))
+        cwork.append((dict(fc, name="verifFieldWorldSilent", main=fc["main"].replace("# flags: ", "# flags: --follow-imports=silent ")), cfg, "reload-deep"))
     cresults = []
     with ProcessPoolExecutor(16) as pex:
         for res in pex.map(corpus_worker, cwork, chunksize=2):
@@ -660,6 +665,8 @@ def main(argv: list[str]) -> int:
         if r["violation"]:
             if r["order"].startswith("reload"):
                 key = "reload:%s::%s:%s" % (r["file"], r["name"], r.get("label", ""))
+                if r["file"] == "<field world>":
+                    key += ":%s/%s" % tuple(r["cfg"])
             elif r["order"] == "back" and len(r.get("at", [])) <= C.steps_of(next(c for c, _, o in cwork if c["name"] == r["name"] and o == "back")):
                 key = "corpus:%s" % r["name"]
             else:
